@@ -280,9 +280,11 @@ impl Uplinks {
                             {
                                 *queued = false;
                                 let synced = std::mem::replace(send_synced, false);
+                                // The uplink may have been queued for the synced marker alone.
+                                let had_data = backpressure.has_data();
                                 backpressure.prepare_write(&mut buffer);
                                 let action = if synced {
-                                    WriteAction::ValueSynced(true)
+                                    WriteAction::ValueSynced(had_data)
                                 } else {
                                     WriteAction::Event
                                 };
